@@ -7,7 +7,8 @@
 (* inputs, 0..2 change outputs, amount-includes-fee, payment proof) and    *)
 (* one alteration of a slate in flight (none; one of the PreClasses on the *)
 (* S1 / I1 slate before the counterparty answers; one of the PostClasses   *)
-(* on the reply).  TLC enumerates every applicable case and model-checks   *)
+(* on the reply), and - for the flows in PairFlows - every ordered pair of  *)
+(* alterations (the second one on the reply) on the basic shape.  TLC enumerates every applicable case and model-checks   *)
 (*   Inv_Honest            the untouched exchange finalizes, and what it   *)
 (*                         produces is consensus-valid, fee-sufficient,    *)
 (*                         exactly the deal                                *)
@@ -24,13 +25,22 @@
 (***************************************************************************)
 EXTENDS SlateAlgebra, Json
 
-CONSTANTS NinSet, NchSet, Emit
+CONSTANTS NinSet, NchSet, Emit,
+          PairFlows, \* flows for which every ordered PAIR of alterations (second one on the reply) is a case (basic shape)
+          WithSingles \* FALSE: only the pairs (the runner splits the enumeration over several TLC processes)
 
 VARIABLE c
 
 Classes == {"none"} \cup PreClasses \cup PostClasses
-AllCases == {x \in [flow : Flows, nin : NinSet, nch : NchSet, incfee : BOOLEAN, proof : BOOLEAN,
-                    stage : {"none", "pre", "post"}, tamper : Classes] : Applicable(x)}
+Singles == IF ~WithSingles THEN {} ELSE
+           {x \in [flow : Flows, nin : NinSet, nch : NchSet, incfee : BOOLEAN, proof : BOOLEAN,
+                   stage : {"none", "pre", "post"}, tamper : Classes, tamper2 : {"none"}] : Applicable(x)}
+\* pairs: one input, one change output; a pair that cannot be composed on the actual slates (the second
+\* class needs something the first one removed) is not a case
+PairCases == {x \in [flow : PairFlows, nin : {1}, nch : {1}, incfee : {FALSE}, proof : BOOLEAN,
+                          stage : {"pre", "post"}, tamper : PreClasses \cup PostClasses, tamper2 : PostClasses] :
+                     Applicable(x) /\ Exchange(x).reply}
+AllCases == Singles \cup PairCases
 
 Init == c \in AllCases
 Next == UNCHANGED c
@@ -51,12 +61,12 @@ Mutant_Report ==
   IF TamperRefusedBroken(Verdict(c), Predict(c).res)
      \/ (Predict(c).res = "ok" /\ ~(ConsensusValid(FinTx) /\ FeeOk(FinTx) /\ Exact(c, FinTx)))
      \/ (c.tamper = "none" /\ Predict(c).res # "ok")
-  THEN PrintT(<<"MUTCEX", ToJson([flow |-> c.flow, stage |-> c.stage, tamper |-> c.tamper, nch |-> c.nch, nin |-> c.nin])>>)
+  THEN PrintT(<<"MUTCEX", ToJson([flow |-> c.flow, stage |-> c.stage, tamper |-> c.tamper, tamper2 |-> c.tamper2, nch |-> c.nch, nin |-> c.nin])>>)
   ELSE TRUE
 
 EmitCase ==
   IF ~Emit THEN TRUE
   ELSE PrintT(<<"CASE", ToJson([flow |-> c.flow, nin |-> c.nin, nch |-> c.nch, incfee |-> c.incfee, proof |-> c.proof,
-                                stage |-> c.stage, tamper |-> c.tamper,
+                                stage |-> c.stage, tamper |-> c.tamper, tamper2 |-> c.tamper2,
                                 verdict |-> Verdict(c), predict |-> Predict(c).res, why |-> Predict(c).why])>>)
 =============================================================================
